@@ -283,6 +283,7 @@ def run_library(spec, acc, api, con):
         data_functions_without_options(acc, api)
         data_functions_report_failures(acc, api)
         script_function_failures(acc, api)
+        fatal_statement_errors(acc, api)
         system_fetch_failures(acc, api)
         odd_include_urls(acc, api)
         host_typed_values(acc, api)
@@ -455,6 +456,50 @@ def script_function_failures(acc, api):
                 continue
             acc.count('script_function_failure_checks')
 
+
+def fatal_statement_errors(acc, api):
+    """The documented FATAL errors of statements - a jump to a label that does not exist, the statement budget running out - are the
+    documented error type wherever and whenever they happen: after other jumps were taken in the same statement list, inside a
+    function, with integer / float / fractional limits, through evaluate_expression calling a script function."""
+    import bare_script
+    rt_err = api[2]
+    jumps = [("jump a\na:\njump nowhere", 'nowhere'), ("jump nowhere", 'nowhere'),
+             ("ix = 0\nwhile ix < 2:\n    ix = ix + 1\nendwhile\njump typoLabel", 'typoLabel'),
+             ("x = 1\nif x:\n    y = 2\nendif\njumpif (x) missing", 'missing'),
+             ("n = 0\nagain:\nn = n + 1\njumpif (n < 3) again\njump gone\ngone2:", 'gone'),
+             ("for v in arrayNew(1, 2):\n    z = v\nendfor\njumpif (z == 2) lost", 'lost'),
+             ("function fa():\n    jump a\n    a:\n    jump nowhere\nendfunction\nr = fa()\nreturn 'continued'", 'nowhere'),
+             ("function fa(n):\n    for v in arrayNew(1):\n        n = n + v\n    endfor\n    jumpif (n) away\n    return 1\nendfunction\nreturn arrayNew(fa(1), 'continued')", 'away'),
+             ("function fa():\n    jump only\nendfunction\nok:\njump ok2\nok2:\nreturn fa()", 'only'),
+             ("jump a\na:\njump b\nb:\njumpif (1) c\nc:\njumpif (0) never\njumpif (1) never", 'never')]
+    for text, label in jumps:
+        for debug in (False, True):
+            case = {'text': text, 'debug': debug}
+            acc.case(('unknown-label', text, debug), True)
+            acc.count('fatal_statement_error_checks')
+            try:
+                res = bare_script.execute_script(bare_script.parse_script(text), {'globals': {}, 'logFn': (lambda m: None), 'debug': debug})
+                acc.violation('fatal-error-swallowed', f'jump to the undefined label {label!r} did not fail: result {res!r:.200}\n{text}', case)
+            except rt_err as exc:
+                if str(exc) != f'Unknown jump label "{label}"':
+                    acc.violation('fatal-error-message', f'{str(exc)!r} for a jump to the undefined label {label!r}\n{text}', case)
+            except Exception as exc:  # pylint: disable=broad-except
+                acc.violation('host-exception-escaped', f'jump to the undefined label {label!r}: {type(exc).__name__}: {exc}\n{text}', case)
+    loops = ["while true:\nendwhile", "function spin():\n    while true:\n    endwhile\nendfunction\nreturn arrayNew(spin(), 'continued')",
+             "again:\njump again", "function ping(n):\n    while n:\n        n = pong(n)\n    endwhile\nendfunction\nfunction pong(n):\n    return n + 1\nendfunction\nreturn ping(1)"]
+    for text in loops:
+        for limit in (5, 5.0, 7.5, 8.25, 1e3, 1000, 99.999):
+            case = {'text': text, 'limit': limit}
+            acc.case(('budget', text, limit), True)
+            acc.count('fatal_statement_error_checks')
+            try:
+                res = bare_script.execute_script(bare_script.parse_script(text), {'globals': {}, 'maxStatements': limit})
+                acc.violation('fatal-error-swallowed', f'a non-terminating script ended with {res!r:.200} under maxStatements={limit!r}\n{text}', case)
+            except rt_err as exc:
+                if not str(exc).startswith('Exceeded maximum script statements'):
+                    acc.violation('fatal-error-message', f'{str(exc)!r} under maxStatements={limit!r}\n{text}', case)
+            except Exception as exc:  # pylint: disable=broad-except
+                acc.violation('host-exception-escaped', f'statement budget maxStatements={limit!r} ran out: {type(exc).__name__}: {exc}\n{text}', case)
 
 def system_fetch_failures(acc, api):
     """systemFetch over a host fetchFn that answers some requests and fails others (raises, returns nothing), in every position of
